@@ -467,6 +467,17 @@ def h_error(P, E, H, scope=None):
                       "error-handler can return without sink_error(own error) and without a "
                       "structural recovery: the error is swallowed or replaced",
                       body=hb, path=E.describe_path(hb, path or []))
+        # the error is the terminal the subscriber gets: nothing in the handler completes downstream BEFORE it forwards the error
+        # (sink_complete on the only upstream completes the subscriber; the sink_error after it then finds nobody)
+        errs = [c for c in hb.calls if atom(c) == "sink_error"]
+        comps = [c for c in hb.calls if atom(c) in ("sink_complete", "sink_complete_force")]
+        for ce in errs:
+            for cc in comps:
+                if cc.bb != ce.bb and ce.bb in hb.reachable_from(cc.bb):
+                    r.violate(key + ("completes before it forwards the error",),
+                              "the error-handler calls %s and only then sink_error: the completion reaches the subscriber first and the "
+                              "error is dropped at the closed gate" % atom(cc), body=hb, line=cc.line)
+                    break
     return r
 
 
